@@ -287,12 +287,37 @@ def check(ctx):
         for st in CACHE_STATES:
             res = run_in_state(prog, f, st, {}, prog.cls(cq))
             selfp = tm.param(f.params[0])
+            for e in res.of_kind("delattr"):
+                if e.data["base"] is not selfp or \
+                        e.data["name"] not in (M, Q) or \
+                        not st[VIEWS.index(e.data["name"])]:
+                    continue
+                # dropping a view instead of selecting from it: it is
+                # regenerated from the other views, and neither conversion
+                # is an exact inverse (matrices -> quaternions normalises
+                # and forgets a Sim(3) scale; quaternions -> matrices ->
+                # quaternions changes sign / last bits)
+                ctx.ob("C08.3", e, False,
+                       f"{cq}.reduce_to_ids[{state_name(st)}]: "
+                       f"{e.data['name']} is dropped instead of selected "
+                       f"by `ids`; the view regenerated from the other "
+                       f"representation is not the unmodified data of the "
+                       f"selected poses (poses given as matrices: rounding "
+                       f"of the normalised quaternion, a Sim(3) scale is "
+                       f"lost)",
+                       key=f"C08.3:{cq}:{e.data['name']}:dropped")
             for e in res.of_kind("setattr"):
                 if e.data["base"] is not selfp or \
                         e.data["name"] not in VIEWS + ("timestamps",):
                     continue
                 v = e.data["value"]
                 ok = _indexed_by(v, selfp, e.data["name"], ids, e.live)
+                if ok is None:
+                    ctx.undecidable(
+                        "C08.3", e, f"{cq}.reduce_to_ids: {e.data['name']} "
+                        f"is computed from `ids` in a form this rule does "
+                        f"not read as an index selection: {fmt(v)[:120]}")
+                    continue
                 ctx.ob("C08.3", e, ok is True,
                        f"{cq}.reduce_to_ids[{state_name(st)}]: "
                        f"{e.data['name']} := own {e.data['name']} selected "
@@ -821,7 +846,8 @@ def _same_ids(t: T, ids: T):
 def _indexed_by(v: T, selfp: T, attr: str, ids: T, live: T = None):
     own = tm.attr(selfp, attr)
     r0 = _indexed_by_plain(v, selfp, attr, ids)
-    if r0 is not False or not any(x.op == "ite" for x in v.walk()):
+    if r0 is True or r0 == "float" or \
+            not any(x.op == "ite" for x in v.walk()):
         return r0
     live = tm.TRUE if live is None else live
     # a fast path next to the index selection (a slice for a contiguous
@@ -884,13 +910,40 @@ def _indexed_by(v: T, selfp: T, attr: str, ids: T, live: T = None):
             if est:
                 continue
             return ("slice", fmt(core)[:60])
-        return False
+        return r1
     return verdict
 
 
+def _own_values(t: T, own: T) -> bool:
+    """t holds the entries of `own` in order: own itself, np.asarray /
+    np.array of it, a .reshape(-1, ...) that keeps the leading axis"""
+    for _ in range(6):
+        if t is own:
+            return True
+        if is_call_to(t, "numpy.asarray", "numpy.array", "numpy.stack",
+                      "numpy.ascontiguousarray") and len(t.args[1]) == 1 \
+                and not any(k in ("dtype", "axis") for k, _ in t.args[2]):
+            t = t.args[1][0]
+        elif is_call_to(t, ".reshape") and t.args[1] and (
+                tm.is_const(t.args[1][0], -1) or (
+                    t.args[1][0].op == "tuple" and t.args[1][0].args and
+                    tm.is_const(t.args[1][0].args[0], -1))):
+            t = tm.method_recv(t)
+        else:
+            return False
+    return False
+
+
 def _indexed_by_plain(v: T, selfp: T, attr: str, ids: T):
+    """True / 'float' (ids converted without integer dtype) / False (an
+    index selection of the own view by something else, or a value that does
+    not depend on `ids` at all: evidence) / None (not read as a selection)"""
     own = tm.attr(selfp, attr)
-    if v.op == "sub" and v.args[0] is own:
+    if attr == M and is_call_to(v, "builtins.list") and \
+            len(v.args[1]) == 1 and not v.args[2]:
+        # the pose list: list(<stacked matrices>[ids]) holds the same rows
+        v = v.args[1][0]
+    if v.op == "sub" and _own_values(v.args[0], own):
         return _same_ids(v.args[1], ids)
     if v.op == "call" and is_call_to(v, "numpy.take") and \
             len(v.args[1]) >= 2 and v.args[1][0] is own:
@@ -900,6 +953,12 @@ def _indexed_by_plain(v: T, selfp: T, attr: str, ids: T):
         el = T("elem", it, lid)
         if it is ids and v.args[1] is tm.sub(own, el):
             return True
+    root = ids
+    while root.op == "named":
+        root = root.args[1]
+    if any(x is ids or x is root for x in v.walk()) and not (
+            v.op == "sub" and v.args[0] is own):
+        return None
     return False
 
 
